@@ -9,7 +9,9 @@ recorded watershed outputs and completion order and must reproduce every public
 observable exactly.  The property itself is re-stated in plain Python (``oracle``)
 and evaluated on every implementation output.
 """
+import functools
 import itertools
+import pickle
 import warnings
 from fractions import Fraction
 
@@ -72,12 +74,27 @@ class Recorder:
         self.D._deblend_source = self.orig_ds
 
 
+def _ship(obj):
+    """What crossing a process boundary does to an object: a pickle round trip (a private copy)."""
+    return pickle.loads(pickle.dumps(obj, protocol=pickle.HIGHEST_PROTOCOL))
+
+
 class _FakeFuture:
+    """One task of the stand-in pool.  As with a real ProcessPoolExecutor the callable's bound
+    arguments (functools.partial args/keywords), the call arguments and the returned value are
+    pickled, so every task works on PRIVATE copies: state that the serial loop shares between
+    sources (e.g. one parameter object mutated by a source) is not shared here, exactly as
+    between real worker processes.  (The function object itself is kept: the recorder's wrapper
+    is a closure.)"""
+
     def __init__(self, fn, args):
-        self.fn, self.args = fn, args
+        if isinstance(fn, functools.partial):
+            pargs, pkw = _ship((fn.args, fn.keywords))
+            fn = functools.partial(fn.func, *pargs, **pkw)
+        self.fn, self.args = fn, _ship(args)
 
     def result(self):
-        return self.fn(*self.args)
+        return _ship(self.fn(*self.args))
 
 
 class FakePool:
@@ -139,7 +156,52 @@ def _gauss(ny, nx, srcs):
 def gen_scene(rng, small):
     ny = rng.randint(5, 8 if small else 12)
     nx = rng.randint(6, 10 if small else 16)
-    kind = rng.choice(['gauss', 'gauss', 'multi', 'multi', 'multi', 'clusters', 'plateau', 'ridge', 'hand', 'noise'])
+    kind = rng.choice(['gauss', 'gauss', 'multi', 'multi', 'multi', 'faint', 'faint', 'interlock', 'interlock',
+                       'clusters', 'plateau', 'ridge', 'hand', 'noise'])
+    if kind == 'interlock':
+        # 2-3 two-source blends on parallel diagonals: separate segments whose bounding boxes
+        # contain pixels of each other (a whole-cutout write would damage the neighbour)
+        ng = rng.randint(2, 3)
+        dd, shift = 3, rng.choice([8, 9])
+        ny, nx = 2 * dd + 6, 2 * dd + 6 + (ng - 1) * shift
+        srcs = []
+        for g in range(ng):
+            for k in range(3):
+                srcs.append((rng.choice([80, 100, 120]), 2.5 + k * dd + rng.uniform(-0.2, 0.2),
+                             2.5 + k * dd + g * shift + rng.uniform(-0.2, 0.2), 1.0))
+        data = np.round(_gauss(ny, nx, srcs))
+        if rng.random() < 0.5:
+            data = data[::-1].copy()
+        if rng.random() < 0.3:
+            data = data.T.copy()
+        return kind, data
+    if kind == 'faint':
+        # tiles: ordinary two-source blends and bright stars with a ~1% companion that is
+        # separated by exponentially / sinh spaced levels only (linear levels step over it)
+        th = rng.randint(9, 11)
+        tiles = [rng.choice(['blend', 'star']) for _ in range(rng.randint(2, 3))]
+        if 'star' not in tiles:
+            tiles[rng.randrange(len(tiles))] = 'star'
+        srcs, x0 = [], 0
+        for t in tiles:
+            yc = (th - 1) / 2 + rng.uniform(-0.5, 0.5)
+            if t == 'star':
+                tw = 19
+                flip = rng.random() < 0.5
+                xs, xcmp = (6, 6 + rng.choice([7, 7.5, 8])) if not flip else (12, 12 - rng.choice([7, 7.5, 8]))
+                srcs.append((rng.choice([800, 1000, 2000]), yc, x0 + xs, 1.5))
+                srcs.append((rng.choice([8, 10, 14]), yc + rng.uniform(-1, 1), x0 + xcmp, 1.2))
+            else:
+                tw = 12
+                sep = rng.choice([3.5, 4.0, 5.0])
+                for k in range(2):
+                    srcs.append((rng.choice([60, 100, 150]), yc + rng.uniform(-1, 1),
+                                 x0 + 5.5 + (k - 0.5) * sep, rng.choice([0.8, 1.0, 1.2])))
+            x0 += tw
+        ny, nx = th, x0
+        data = _gauss(ny, nx, srcs)
+        data = np.round(data * 4) / 4
+        return kind, data
     if kind == 'multi':
         # 2-4 well separated blends (each two or three overlapping sources): several parents are
         # deblended in one call, so the running max_label and the completion order matter
@@ -206,6 +268,10 @@ def gen_case(rng, small=False):
     thr = rng.choice([0, 0, 1, 2, 5])
     if kind == 'multi':
         thr = rng.choice([2, 3, 5])
+    if kind == 'faint':
+        thr, npix_det = rng.choice([0.5, 1, 1]), rng.choice([2, 3, 5])
+    if kind == 'interlock':
+        thr, npix_det = 10, rng.choice([1, 2, 3])
     seg = None
     if kind != 'hand':
         with warnings.catch_warnings():
@@ -265,11 +331,25 @@ def gen_case(rng, small=False):
     npix = rng.choice([1, 2, 2, 3, 3, 5, 8])
     nlevels = rng.choice([1, 2, 4, 8, 32])
     contrast = rng.choice([0, 0.0, 0.001, 0.001, 0.01, 0.1, 0.3, 0.5, 1.0])
-    if kind == 'multi' and rng.random() < 0.8:
+    mode = rng.choice(['exponential', 'linear', 'sinh'])
+    if kind == 'faint' and rng.random() < 0.85:
+        npix = rng.choice([1, 2, 3])
+        nlevels = rng.choice([16, 32, 32])
+        contrast = rng.choice([0, 0.001, 0.001])
+        mode = rng.choice(['exponential', 'exponential', 'sinh'])
+    if kind in ('faint', 'multi', 'gauss', 'clusters') and rng.random() < (0.7 if kind == 'faint' else 0.15):
+        # ONE segment gets a zero / negative pixel (over-subtracted background): only that source
+        # may fall back to linear levels
+        tgt = rng.choice(labs)
+        pts = np.argwhere(seg == tgt)
+        iy, ix = pts[rng.randrange(len(pts))] if rng.random() < 0.5 else pts[0]
+        data = data.copy()
+        data[iy, ix] = rng.choice([0.0, -0.5, -2.0])
+        flavour.append('nonpos-pixel-in-one-segment')
+    if kind in ('multi', 'interlock') and rng.random() < 0.8:
         npix = rng.choice([1, 2, 3])
         nlevels = rng.choice([4, 8, 32])
         contrast = rng.choice([0, 0.001, 0.01, 0.1])
-    mode = rng.choice(['exponential', 'linear', 'sinh'])
     conn = conn_det if rng.random() < 0.85 else 12 - conn_det
     relabel = rng.random() < 0.5
     r = rng.random()
@@ -281,6 +361,8 @@ def gen_case(rng, small=False):
         mode = 'bad'
     labels = None
     r = rng.random()
+    if kind in ('faint', 'interlock') and r < 0.45 and rng.random() < 0.7:
+        r = 0.9
     if r < 0.45:
         k = rng.randint(1, len(labs))
         labels = rng.sample(labs, k)
@@ -575,6 +657,43 @@ def oracle(case, seg_arr, in_map, tab, res):
     return bad
 
 
+def _pattern(case, labels, l):
+    """Children pattern of parent l when `labels` are deblended (relabel=False): (deblended?, child index
+    of every pixel of l in raster order, counted from the smallest child label) or ('exc', class)."""
+    c2 = dict(case, labels=labels, relabel=False, redeblend=case.get('redeblend', False))
+    segm = make_segm(c2)
+    seg = np.array(segm.data)
+    res = call_impl(c2, segm, 1)
+    if 'exc' in res:
+        return ('exc', res['exc'])
+    out = np.array(res['ok']['data'], dtype=object).astype(np.int64).reshape(seg.shape)
+    vals = out[seg == l]
+    deb = l in [k for k, _ in res['ok']['inverse_map']]
+    return (deb, (vals - vals.min()).tolist() if deb else (vals - l).tolist())
+
+
+def independence(case, picks, orders):
+    """Per-source independence: what happens to parent l does not depend on which other labels are
+    deblended in the same call nor on their order.  picks = labels to test, orders = label lists
+    (all containing the picks).  Returns [(signature, message, detail)]."""
+    bad = []
+    for l in picks:
+        ref = _pattern(case, [l], l)
+        if ref[0] == 'exc':
+            continue
+        for labels in orders:
+            got = _pattern(case, list(labels), l)
+            if got[0] == 'exc':
+                continue          # another parent failed the footprint guard
+            if got != ref:
+                bad.append(('deblend_sources:source-depends-on-other-sources',
+                            f'parent {l} is split differently when deblended alone and together with labels {list(labels)}',
+                            {'case': describe(case), 'independence': {'label': int(l), 'labels': [int(v) for v in labels]},
+                             'alone': ref, 'together': got, 'cmd': 'bin/check C06 --replay <this file>'}))
+                break
+    return bad
+
+
 # --------------------------------------------------------------------------
 def describe(case):
     d = case['data']
@@ -620,14 +739,19 @@ def strip_res(res):
 def run(ctx):
     ctx.build(FILES)
     ctx.cov['rule'] = (
-        'blended scenes (2-5 overlapping rounded Gaussians, 2-4 separate blends deblended in one call, clusters, '
+        'blended scenes (2-5 overlapping rounded Gaussians, 2-4 separate blends deblended in one call, bright stars '
+        'with ~1% companions that split only under exponential/sinh levels next to segments containing one planted '
+        'zero/negative pixel (per-source fallback to linear), blends on parallel diagonals with interlocking '
+        'bounding boxes, clusters, '
         'plateaus, ridges with saddles, noise, hand-made segmentations incl. disconnected parents) -> '
         'detect_sources or hand labels; label gaps and '
         'non-raster label order, tiny segments, merged labels, 8 integer dtypes, labels at the dtype maximum, '
         're-deblending; labels=None/subset/shuffled/duplicates/scalar/empty/invalid; nlevels, contrast '
         '(incl. 0, 1, invalid), 3 modes (+invalid), connectivity equal/different from detection, relabel; '
         'serial run + nproc>1 path under EVERY completion order for <=3 tasks (quick) / <=4 tasks (thorough), '
-        'reversed + random orders above (+ real spawn pools); non-trivial = at least '
+        'reversed + random orders above, every task of the in-process executor working on pickled copies of its '
+        'arguments (+ real spawn pools); per-source independence: a parent deblended alone / with all labels / '
+        'shuffled / reversed must get the same child pattern; non-trivial = at least '
         'one parent is deblended or an error branch is taken; distinct = distinct (scene, arguments, order)')
     ctx.assumptions += [
         'make_markers / skimage watershed / contrast pruning (apply_watershed) are not modelled: their output '
@@ -637,7 +761,12 @@ def run(ctx):
         'schedule theorems assume valid_schedule: concurrent.futures.as_completed yields every submitted future '
         'exactly once (the completion order is a permutation of the submission indices)',
         'the parallel code path is exercised with an in-process executor delivering futures in chosen '
-        'completion orders; real spawn pools are sampled (the OS scheduler cannot be enumerated)',
+        'completion orders; like a real ProcessPoolExecutor it pickles the bound arguments, call arguments and '
+        'results of every task (no state shared between tasks); real spawn pools are sampled (the OS scheduler '
+        'cannot be enumerated)',
+        'per_source_independent is about the merge: equal watershed output for parent l => equal child pattern; '
+        'that the un-modelled threshold/watershed stage of source l looks at nothing but source l is tested by '
+        'the independence oracle (alone = together = shuffled = reversed label lists)',
         'labels are unbounded naturals in the model; the integer dtype enters only through the ValueError of '
         'fix C06-1 (final max_label > dtype maximum); nproc=None (cpu_count) and the progress bar are not modelled',
         'input_not_written is immediate for the functional model (it has no aliasing); the clause is tied to the '
@@ -684,6 +813,19 @@ def run(ctx):
         ctx.stat('result', res.get('exc') or ('deblended' if res['ok']['inverse_map'] else 'nothing-deblended'))
         if 'ok' in res:
             ctx.stat('parents_deblended', str(len(res['ok']['inverse_map'])))
+        # per-source independence (labels alone / all together / shuffled), on valid calls
+        if 'ok' in res and case['contrast'] != 1 and (quick is False or ctx.rng.random() < 0.5):
+            seg_now = meta[-1][1]
+            lab = [int(v) for v in np.unique(seg_now) if v] if case['labels'] is None else \
+                sorted(set(int(v) for v in np.atleast_1d(case['labels'])))
+            big = [l for l in lab if (seg_now == l).sum() >= 2 * case['npix']]
+            if len(big) >= 2:
+                picks = ctx.rng.sample(big, min(2, len(big)))
+                sh = list(lab)
+                ctx.rng.shuffle(sh)
+                for sig, msg, detail in independence(case, picks, [lab, sh, list(reversed(lab))]):
+                    ctx.violation(sig, msg, detail)
+                ctx.support('oracle:per-source-independence', len(picks))
         # schedules: the nproc>1 code path with an in-process executor.  First in submission
         # order (this also tells how many futures the call really submits), then under every
         # other completion order (few tasks) or reversed + random ones (many tasks)
@@ -792,6 +934,9 @@ def replay(obj):
         seg_arr, in_map, tab, _, res = run_one(case, nproc, lambda n: order if n == len(order) else range(n))
     print('impl:', strip_res(res) if 'exc' in res else {k: v for k, v in res['ok'].items() if k != 'data'})
     viol = oracle(case, seg_arr, in_map, tab, res)
+    if r.get('independence'):
+        ind = r['independence']
+        viol += [(sg_, msg) for sg_, msg, _ in independence(case, [ind['label']], [ind['labels']])]
     if nproc != 1 and order:
         _, _, _, _, res1 = run_one(case, 1, None)
         if strip_res(res1) != strip_res(res):
